@@ -142,7 +142,15 @@ func (idx *Index) Update(rootGoitPath string, hash sha.SHA1, path []byte) (bool,
 		// remove existing entry
 		idx.Entries = append(idx.Entries[:pos], idx.Entries[pos+1:]...)
 	}
-	idx.Entries = append(idx.Entries, entry)
+	// a path is tracked either as a file or as a directory, never as both:
+	// staging 'a/x' replaces a tracked file 'a', staging a file 'd' replaces the tracked files beneath 'd/'
+	kept := make([]*Entry, 0, len(idx.Entries)+1)
+	for _, e := range idx.Entries {
+		if !isBeneath(path, e.Path) && !isBeneath(e.Path, path) {
+			kept = append(kept, e)
+		}
+	}
+	idx.Entries = append(kept, entry)
 	idx.EntryNum = uint32(len(idx.Entries))
 	sort.Slice(idx.Entries, func(i, j int) bool { return string(idx.Entries[i].Path) < string(idx.Entries[j].Path) })
 
@@ -151,6 +159,11 @@ func (idx *Index) Update(rootGoitPath string, hash sha.SHA1, path []byte) (bool,
 	}
 
 	return true, nil
+}
+
+// isBeneath reports whether path lies beneath the directory dir, i.e. starts with dir + "/"
+func isBeneath(path, dir []byte) bool {
+	return len(path) > len(dir) && path[len(dir)] == '/' && string(path[:len(dir)]) == string(dir)
 }
 
 func (idx *Index) DeleteEntry(rootGoitPath string, path []byte) error {
